@@ -330,6 +330,40 @@ def report(chk, F, asis):
 
 
 # ------------------------------------------------------------------------------------------------
+# entry point for the listed properties that name SparseScan routes (C11: cplabel, C13: lmlabel)
+
+def bind_routes(chk, prefix, runs, tag):
+    """Run the SparseScan specification on `runs` [(name, cfg, timeout)], replay every emitted case on the real class
+    (normal build) and report, as violations of `chk`'s property, the failures of the routes whose name starts with
+    `prefix` (e.g. "SparseScan.cplabel").  Failures of other routes of the same replay (loading, moments, blob
+    properties) are X03's matter: they are counted in the notes, never reported here - and when the scan could not
+    even be loaded as the model says, nothing is attributed to the labelling routes (their inputs differ)."""
+    F = Failures()
+    ncases = 0
+    for k, (name, cfg, timeout) in enumerate(runs):
+        cases = tlc_cases(chk, name, cfg, timeout, False)
+        out = child_replay(chk, cases, "%s%d" % (tag, k), "normal", F, light=False)
+        account(chk, cases[:out["n"]])
+        ncases += out["n"]
+    load_broken = [s for s in F.groups if s[0].startswith("SparseScan(") or s[0].startswith("SparseScan.getframe")]
+    other = {}
+    nrep = 0
+    for s in sorted(F.groups, key=str):
+        g = F.groups[s]
+        route, kind = s
+        if route.startswith(prefix) and not load_broken:
+            nrep += 1
+            chk.violation("%s: %s [%d failing case(s); first one in the replay file]" % (
+                route, g["msg"].split("\n")[0][:300], g["n"]), {"sparsescan_case": g["first"]})
+        else:
+            other["%s | %s" % s] = g["n"]
+    chk.notes["sparsescan_routes"] = {"prefix": prefix, "cases_replayed": ncases, "groups_reported": nrep,
+                                      "failures_of_other_routes_not_this_property": other,
+                                      "load_differs_from_model": bool(load_broken)}
+    return ncases
+
+
+# ------------------------------------------------------------------------------------------------
 def run(tier, replay_path=None):
     chk = common.Check(PROP, tier)
     shadow = common.build_shadow("normal")
